@@ -165,7 +165,7 @@ def check_appends(ctx):
                   sample='%d paths, one %s.append each' % (n, lst))
 
 
-def run(ctx, which=None, appends=False):
+def run(ctx, which=None, appends=False, caches=False, extrema=False, pairpos=False):
     ctx.group('R-ONCE')
     n = 0
     for path, qual, name, over, at_most in COUNTERS:
@@ -175,3 +175,159 @@ def run(ctx, which=None, appends=False):
         n += 1
     if appends:
         check_appends(ctx)
+    if caches:
+        check_row_caches(ctx)
+    if extrema:
+        check_extrema(ctx)
+    if pairpos:
+        check_pair_position(ctx)
+
+
+# --------------------------------------------------------------------------- per-row caches and extrema
+
+def _invariant(e, variant_names):
+    return not any(isinstance(x, ast.Name) and x.id in variant_names for x in ast.walk(e))
+
+
+def check_row_caches(ctx):
+    """Lists that are later indexed by row id (`size_cache[row]`, `cached_tokens[row]`) receive exactly one
+    entry per row: whether a path of the row loop appends may depend on loop-invariant flags only."""
+    repo = ctx.repo
+    n = 0
+    for cls, (fpath, ipath, icls) in sorted(FILTERS.items()):
+        if icls is None:
+            continue
+        b = repo.fn(ipath, icls + '.build')
+        view = view_of(b)
+        loops = [x for x in walk_own(b.node) if isinstance(x, ast.For) and U(x.iter) in ('self.table', 'enumerate(self.table)')]
+        if len(loops) != 1:
+            raise AnalysisError('%s: row loop not found' % b.where)
+        lp = loops[0]
+        variant = set()
+        for x in ast.walk(lp):
+            if isinstance(x, ast.Name) and isinstance(x.ctx, ast.Store):
+                variant.add(x.id)
+        lists = set()
+        for x in ast.walk(lp):
+            if isinstance(x, ast.Call) and isinstance(x.func, ast.Attribute) and x.func.attr == 'append':
+                r = U(x.func.value)
+                if 'cache' in r and 'index' not in r.split('.')[-1]:
+                    lists.add(r)
+        for lst in sorted(lists):
+            n += 1
+            plist = [(p, symexec(p)) for p, how in loop_body_paths(view, lp) if how == 'next']
+            info = []
+            for p, ps in plist:
+                cnt = 0
+                for step in p:
+                    st = step.node.ast
+                    if step.node.kind == 'stmt' and isinstance(st, ast.Expr) and isinstance(st.value, ast.Call) \
+                            and isinstance(st.value.func, ast.Attribute) and st.value.func.attr == 'append' \
+                            and U(st.value.func.value) == lst:
+                        cnt += 1
+                inv = {}
+                for step in p:
+                    if step.node.kind == 'test' and step.label in ('T', 'F') and _invariant(step.node.ast.test, variant):
+                        inv[U(step.node.ast.test)] = (step.label == 'T')
+                info.append((cnt, inv))
+            bad = None
+            for c1, i1 in info:
+                if c1 > 1:
+                    bad = 'appended %d times in one iteration' % c1
+                for c2, i2 in info:
+                    if c1 != c2 and not any(k in i2 and i2[k] != v for k, v in i1.items()):
+                        bad = bad or 'some rows append to it and others do not although no loop-invariant flag differs'
+            ctx.check('R-ONCE/row-cache', b, lst, bad is None,
+                      '`%s` is indexed by row id elsewhere but %s: entries shift against the row ids' % (lst, bad), lp,
+                      sample='%s: one entry per row on all %d iteration paths' % (lst, len(info)))
+    ctx.floor('R-ONCE/row-cache', n, 3, 'row caches')
+
+
+def check_extrema(ctx):
+    """min_length / max_length of an index are the extrema over *all* rows: each is updated exactly when the
+    row's token count beats it, independently of the other."""
+    from ..guards import Conds, Universe, to_formula
+    from .common import parse_expr, expander
+    repo = ctx.repo
+    n = 0
+    for icls, ipath in (('PositionIndex', P + 'index/position_index.py'), ('SizeIndex', P + 'index/size_index.py')):
+        b = repo.fn(ipath, icls + '.build')
+        view = view_of(b)
+        conds = Conds(b.node, None)
+        init = repo.fn(ipath, icls + '.__init__')
+        inits = {}
+        for x in walk_own(init.node):
+            if isinstance(x, ast.Assign) and isinstance(x.targets[0], ast.Attribute) and U(x.targets[0].value) == 'self':
+                inits[x.targets[0].attr] = U(x.value)
+        for attr, op, want_init in (('min_length', '<', ('maxsize', 'sys.maxsize')), ('max_length', '>', ('0',))):
+            n += 1
+            stores = [x for x in walk_own(b.node) if isinstance(x, ast.Assign) and isinstance(x.targets[0], ast.Attribute)
+                      and x.targets[0].attr == attr and U(x.targets[0].value) == 'self']
+            ok = len(stores) == 1
+            why = 'expected one update of self.%s in the row loop (found %d)' % (attr, len(stores))
+            if ok:
+                st = stores[0]
+                v = st.value
+                if isinstance(v, ast.Call) and isinstance(v.func, ast.Name) and v.func.id == ('min' if op == '<' else 'max'):
+                    args = sorted(U(a) for a in v.args)
+                    ok = 'self.%s' % attr in args and len(args) == 2
+                    cnt = [a for a in args if a != 'self.%s' % attr][0] if ok else None
+                    c = conds.of(st)
+                    # unconditional w.r.t. loop-variant tests
+                    ok = ok and not [e for _, e, _ in __import__('ssjlint.guards', fromlist=['literals']).literals(c)
+                                     if any(isinstance(y, ast.Name) for y in ast.walk(e))]
+                    why = 'self.%s = %s is not an unconditional running %s' % (attr, U(v), 'minimum' if op == '<' else 'maximum')
+                else:
+                    cnt = U(v)
+                    ref1 = to_formula(parse_expr('%s %s self.%s' % (cnt, op, attr)))
+                    ref2 = to_formula(parse_expr('%s %s= self.%s' % (cnt, op, attr)))
+                    c = conds.of(st)
+                    uni = Universe(int_atoms=lambda a: True)
+                    ok = uni.equivalent(c, ref1) is None or Universe(int_atoms=lambda a: True).equivalent(c, ref2) is None
+                    why = 'self.%s is updated under `%s`, not exactly when `%s %s self.%s`: it is not the %s over all rows' \
+                        % (attr, __import__('ssjlint.guards', fromlist=['show']).show(c)[:100], cnt, op, attr,
+                           'minimum' if op == '<' else 'maximum')
+                if ok:
+                    cx = view.expand(ast.parse(cnt, mode='eval').body, st)
+                    ok = 'len(' in U(cx) and 'tokenize(' in U(cx)
+                    why = 'self.%s is updated with `%s`, not with the row\'s token count' % (attr, cnt)
+            ctx.check('R-ONCE/extrema', b, attr, ok, why, stores[0] if stores else b.node,
+                      sample='self.%s updated exactly when the token count beats it' % attr)
+            ctx.check('R-ONCE/extrema', init, attr + ' initial', inits.get(attr) in want_init,
+                      'self.%s starts at %s, expected %s' % (attr, inits.get(attr), want_init[0]), init.node,
+                      sample='%s = %s' % (attr, inits.get(attr)))
+    ctx.floor('R-ONCE/extrema', n, 4, 'index extrema')
+
+
+def check_pair_position(ctx):
+    """PositionFilter.filter_pair: the left position stored per prefix token must never exceed the token's
+    first position (an over-estimate of the remaining tokens is safe, an under-estimate prunes qualifying
+    pairs; with bags of q-grams a token repeats and a later store would overwrite the first position)."""
+    repo = ctx.repo
+    f = repo.fn(FILTERS['PositionFilter'][0], 'PositionFilter.filter_pair')
+    view = view_of(f)
+    loops = [x for x in f.node.body if isinstance(x, ast.For)]
+    stores = []
+    for lp in loops:
+        for x in ast.walk(lp):
+            if isinstance(x, ast.Assign) and isinstance(x.targets[0], ast.Subscript) and isinstance(x.value, ast.Name) \
+                    and isinstance(x.targets[0].slice, ast.Name) and isinstance(lp.target, ast.Name) \
+                    and x.targets[0].slice.id == lp.target.id:
+                stores.append((lp, x))
+    if len(stores) != 1:
+        raise AnalysisError('%s: left prefix position store not found' % f.where)
+    lp, st = stores[0]
+    pos = st.value.id
+    d = U(st.targets[0].value)
+    advanced = any(isinstance(x, ast.AugAssign) and isinstance(x.target, ast.Name) and x.target.id == pos for x in ast.walk(lp))
+    ok = True
+    why = ''
+    if advanced:
+        from ..guards import Conds, literals
+        c = Conds(f.node, None).of(st)
+        guard = [U(e) for _, e, pol in literals(c) if d in U(e)]
+        ok = bool(guard)
+        why = '`%s` is advanced per prefix token and stored unguarded: a repeated token (bag of q-grams) overwrites its ' \
+              'first position with a later one, the overlap bound becomes too small' % pos
+    ctx.check('R-CAND/pair-position', f, 'left position', ok, why, st,
+              sample='stored left position is %s' % ('constant 0 (safe over-estimate)' if not advanced else 'first occurrence'))
